@@ -79,13 +79,16 @@ def extract(cfg="default", repo=None, force=False, target_dir=None):
     if os.path.exists(out) and not force:
         return out, digest, 0.0, False
     import fcntl
-    lock = open(os.path.join(CACHE, "lock-" + cfg), "w")
+    # self-test workers run in parallel: each has a cargo target directory (and lock) of its own
+    worker = os.environ.get("PCV_WORKER", "")
+    wsfx = ("-w" + worker) if worker else ""
+    lock = open(os.path.join(CACHE, "lock-" + cfg + wsfx), "w")
     fcntl.flock(lock, fcntl.LOCK_EX)
     if os.path.exists(out) and not force:
         return out, digest, 0.0, False
     build_driver()
     t0 = time.time()
-    tgt = target_dir or os.path.join(CACHE, "tgt-" + cfg)
+    tgt = target_dir or os.path.join(CACHE, "tgt-" + cfg + wsfx)
     # cargo's freshness cache would skip the wrapper: drop the local crate's fingerprints
     fp = os.path.join(tgt, "debug", ".fingerprint")
     if os.path.isdir(fp):
@@ -116,10 +119,13 @@ def extract(cfg="default", repo=None, force=False, target_dir=None):
         raise SystemExit("pcv: fact file nonce mismatch")
     os.replace(tmp_out, out)
     # keep the cache small: drop fact files of other digests for this config
+    # (only files that have not been touched for a while: a parallel worker may be about to load its own)
     for fn in os.listdir(CACHE):
-        if fn.startswith("facts-%s-" % cfg) and fn.endswith(".json") and os.path.join(CACHE, fn) != out:
+        fp2 = os.path.join(CACHE, fn)
+        if fn.startswith("facts-%s-" % cfg) and fn.endswith(".json") and fp2 != out:
             try:
-                os.remove(os.path.join(CACHE, fn))
+                if time.time() - os.path.getmtime(fp2) > 1200:
+                    os.remove(fp2)
             except OSError:
                 pass
     return out, digest, time.time() - t0, True
